@@ -93,6 +93,30 @@ def response_ok(text, bits, ty):
         return False
 
 
+def frac_to_decimal(fr):
+    """exact decimal expansion of a non-negative rational whose denominator has only the factors 2 and 5"""
+    n, d = fr.numerator, fr.denominator
+    k = 0
+    while d % 10 == 0:
+        d //= 10
+        k += 1
+    while d % 2 == 0:
+        d //= 2
+        n *= 5
+        k += 1
+    while d % 5 == 0:
+        d //= 5
+        n *= 2
+        k += 1
+    if d != 1:
+        raise ValueError("not a terminating decimal")
+    s = str(n)
+    if k == 0:
+        return s
+    s = s.rjust(k + 1, "0")
+    return s[:-k] + "." + s[-k:]
+
+
 def selftest(rng, n=2000):
     import struct
     for _ in range(n):
